@@ -13,6 +13,7 @@ import (
 	"runtime"
 	"sync"
 	"testing"
+	"time"
 )
 
 type vfPoolOp struct {
@@ -21,9 +22,10 @@ type vfPoolOp struct {
 }
 
 type vfPoolRun struct {
-	tr  *vfTrace
-	cur *RoundRobinBackend
-	msg *Message
+	tr     *vfTrace
+	cur    *RoundRobinBackend
+	msg    *Message
+	nstuck int
 }
 
 func (r *vfPoolRun) hook(ev string, kv ...interface{}) {
@@ -70,16 +72,31 @@ func (r *vfPoolRun) dispatch(seq bool) {
 }
 
 func (r *vfPoolRun) sequential(caseID string, ops []vfPoolOp) {
+	if r.nstuck >= 3 {
+		return // the pool implementation wedges: the cases run so far carry the verdict
+	}
 	r.cur = NewRoundRobinBackend()
 	r.tr.Emit(vfM{"ev": "reset", "case": caseID, "seq": true})
 	for _, op := range ops {
-		switch op.Op {
-		case "add":
-			r.cur.AddBackend(r.double(op.A))
-		case "rm":
-			r.cur.RemoveBackend(op.A)
-		case "disp":
-			r.dispatch(true)
+		op := op
+		pm, stuck := vfWithin(20*time.Second, func() {
+			switch op.Op {
+			case "add":
+				r.cur.AddBackend(r.double(op.A))
+			case "rm":
+				r.cur.RemoveBackend(op.A)
+			case "disp":
+				r.dispatch(true)
+			}
+		})
+		if stuck {
+			r.nstuck++
+			r.tr.Emit(vfM{"ev": "stuck", "op": op.Op})
+			return
+		}
+		if pm != "" {
+			r.tr.Emit(vfM{"ev": "panic", "g": 0, "msg": pm})
+			return
 		}
 	}
 }
@@ -143,7 +160,7 @@ func TestVfPool(t *testing.T) {
 
 	// (3) dispatches racing with membership changes made from another thread
 	nconc := vfEnvInt("VERIF_NCONC", 4)
-	for i := 0; i < nconc; i++ {
+	for i := 0; i < nconc && r.nstuck < 3; i++ {
 		procs := []int{1, 2, 4, 16}[i%4]
 		old := runtime.GOMAXPROCS(procs)
 		r.cur = NewRoundRobinBackend()
@@ -194,9 +211,14 @@ func TestVfPool(t *testing.T) {
 				}
 			}(j)
 		}
-		dg.Wait()
-		close(stop)
-		wg.Wait()
+		if _, stuck := vfWithin(90*time.Second, func() {
+			dg.Wait()
+			close(stop)
+			wg.Wait()
+		}); stuck {
+			tr.Emit(vfM{"ev": "stuck", "op": "concurrent"})
+			r.nstuck = 3
+		}
 		runtime.GOMAXPROCS(old)
 		cases++
 	}
